@@ -383,6 +383,15 @@ async def run(ctx) -> None:
                     ctx.violate("C20", "ends_late", name, f"{tag}: the {name}'s attempt took {dur:.1f} s to fail (bound {bound} s)")
             elif dur > bound:
                 ctx.violate("C20", "ends_late", name, f"{tag}: the {name}'s attempt took {dur:.1f} s (bound {bound} s)")
+        # whatever else is on the air, the packets an end reports as the ones *it* sent are its own (its offer and confirm for the
+        # supplicant, its accept for the respondent) -- a third party's look-alike heard while the own echo is late is not
+        for name, dev, idxs in (("supp", supp, (0, 2)), ("resp", resp, (1,))):
+            if name in res and res[name][0] == "ok":
+                tup = res[name][1]
+                for i in idxs:
+                    if i < len(tup) and tup[i] is not None and str(tup[i])[7:16] != dev.id:
+                        ctx.violate("C20", "not_its_own_packet", f"{name}:{i}", f"{tag}: the {name} ({dev.id}) reports {str(tup[i])!r} as the "
+                                    f"packet {i} it sent")
         if ok and "resp" in res and "supp" in res:
             tr, ts_ = res["resp"][1], res["supp"][1]
             n = 4 if len(pk) > 3 else 3
